@@ -152,3 +152,65 @@ func VerifTxnConfirmVsCancel() {
 		verifrt.Assert(rb.rollbacks == 1, "cancelled-transaction-rolled-back-once")
 	}
 }
+
+// VerifTxnThreeWay: the rollback timer of t1 expires while Confirm("t1") (kind 0) or
+// Cancel("t1") (kind 1) is issued AND a competing TransactionSet keeps trying to register
+// t2 (the retry loop of Datastore.TransactionSet). Every interleaving: t1 ends kept or
+// rolled back exactly once in agreement with the answer the client got; a rollback is never
+// executed for t1 after t2 took its place; t2, once registered, stays the open transaction
+// (its own Confirm is accepted) - a stale expiry of t1 must not touch it.
+func VerifTxnThreeWay() {
+	tm, rb, _ := vOpenTransaction()
+	kind := verifrt.Param("kind", 0)
+	verifrt.Advance(2 * time.Second) // t1's timer is due from here on
+	var cerr error
+	cdone, rdone := false, false
+	registered := false
+	rollbacksAtRegistration := -1
+	go func() {
+		if kind == 0 {
+			cerr = tm.Confirm("t1")
+		} else {
+			cerr = tm.Cancel(context.Background(), "t1")
+		}
+		cdone = true
+	}()
+	go func() {
+		// the competing set: retries until the manager is free (bounded: 3 attempts)
+		tr2 := NewTransaction("t2", tm)
+		tr2.SetTimeout(time.Hour)
+		for i := 0; i < 3 && !registered; i++ {
+			guard, err := tm.RegisterTransaction(context.Background(), tr2)
+			if err == nil {
+				guard.Success()
+				guard.Done()
+				registered = true
+				rollbacksAtRegistration = rb.rollbacks
+			} else {
+				verifrt.Yield("retry")
+			}
+		}
+		rdone = true
+	}()
+	verifrt.AwaitQuiescence()
+	verifrt.Reach("quiescent")
+	verifrt.Assert(cdone && rdone, "all-returned")
+	verifrt.Assert(rb.rollbacks <= 1, "at-most-one-rollback")
+	if cerr == nil {
+		if kind == 0 {
+			verifrt.Assert(rb.rollbacks == 0, "confirmed-transaction-not-rolled-back")
+		} else {
+			verifrt.Assert(rb.rollbacks == 1, "cancelled-transaction-rolled-back-once")
+		}
+	} else {
+		// refused: the timer got there first, t1 was rolled back by it
+		verifrt.Assert(rb.rollbacks == 1, "refused-means-timer-rolled-back")
+	}
+	if registered {
+		verifrt.Reach("t2-registered")
+		verifrt.Assert(rb.rollbacks == rollbacksAtRegistration, "no-rollback-of-t1-after-t2-took-over")
+		_, gerr := tm.GetTransaction("t2")
+		verifrt.Assert(gerr == nil, "t2-stays-the-open-transaction")
+		verifrt.Assert(tm.Confirm("t2") == nil, "t2-confirm-accepted")
+	}
+}
